@@ -1,8 +1,10 @@
 -- Root of the `FerretVerif` library: models (core-only), regenerated tables, proofs and the property theorems.
 import FerretVerif.Props.C01
 import FerretVerif.Props.C02
+import FerretVerif.Props.C04
 import FerretVerif.Props.C05
 import FerretVerif.Props.C06
+import FerretVerif.Props.C08
 import FerretVerif.Props.C10
 import FerretVerif.Props.C11
 import FerretVerif.Props.C15
